@@ -11,3 +11,7 @@ f1, f2, f3, f4 = _marker("1"), _marker("2"), _marker("3"), _marker("4")
 
 def wrap(arg):
     return lambda x: "%s{%s}" % (arg, x)
+
+
+def wrap2(left, right="R"):
+    return lambda x: "%s<%s>%s" % (left, x, right)
